@@ -991,6 +991,14 @@ class PRODEngine(Engine):
                         self.nt.add("recovered-after-faults")
         else:
             self._quiet_phase()
+        if not self.stopped and not self.config["batch"] and not w.pending() and w.next_timer() is None:
+            # C01: on an unbatched producer every send is dispatched as soon as the request before it has resolved; with all faults lifted
+            # and nothing left to happen (no event, no timer) a send that is still pending has been forgotten - it will never fire
+            for s in self.sends:
+                if s.watch is not None and s.watch.state == "pending" and s.cancelled_at is None:
+                    self.note("C01.exactly-once", "C01.send-forgotten", "send #%d (issued t=%.3f on an unbatched producer) is still pending although all faults are lifted and nothing is outstanding: it was never %s" % (
+                        s.no, s.time, "transmitted" if not s.appearances else "resolved"))
+                    break
         if not self.stopped:
             # C01: a send to a topic that does not exist fails with an exception - within the attempt budget, not never
             bound = 12 * self.timeout * max(self.config["max_attempts"], 1) + 60.0
